@@ -613,6 +613,25 @@ func c13R2(r *Report) {
 		l, okp := provesLE(env, sl.High, 0, sl.X, sl.Block())
 		r.Check(okp, "R2", "MetadataComplete/pieces[i*20:(i+1)*20]", sl.Pos(), "hash-table slice in bounds ("+l+")", "the slice of the hash table is not implied in-bounds by the loop bound")
 	})
+	// … or in a helper the table is handed to (splitHashes(info.Pieces)): every slice and index expression of the
+	// helper is then proved in bounds
+	allInstrs(mc, func(in ssa.Instruction) {
+		c, ok := in.(*ssa.Call)
+		if !ok || c.Call.IsInvoke() {
+			return
+		}
+		h := c.Call.StaticCallee()
+		if h == nil || h.Blocks == nil || relPkg(h) != "tor" || h == mc {
+			return
+		}
+		for _, a := range c.Call.Args {
+			if isByteSlice(a.Type()) && mentions(a, fieldLoadOf("BInfo", "Pieces"), 0) {
+				r.Fn(h)
+				n += checkStrided(r, "R2", h)
+				return
+			}
+		}
+	})
 	r.Sentinel("R2.slices", n, 1)
 	// the running sum of file lengths (64-bit, every term chosen by the author of the metainfo) does not wrap: the
 	// accumulation is preceded by a rejecting test of the sum against one of its operands (sum < length), or of one
